@@ -7,6 +7,7 @@ import (
 
 	"github.com/cedar-policy/cedar-go/internal/consts"
 	"github.com/cedar-policy/cedar-go/internal/extensions"
+	"github.com/cedar-policy/cedar-go/types"
 	"github.com/cedar-policy/cedar-go/x/exp/ast"
 )
 
@@ -146,6 +147,16 @@ func (n NodeValue) marshalCedar(buf *bytes.Buffer) {
 	buf.Write(n.Value.MarshalCedar())
 }
 
+// extFunctionCall is a function-style extension call, which binds like a primary.
+type extFunctionCall struct{ NodeTypeExtensionCall }
+
+func (n extFunctionCall) precedenceLevel() nodePrecedenceLevel { return primaryPrecedence }
+
+// negativeLongValue is a negative integer literal, which binds like a unary minus.
+type negativeLongValue struct{ NodeValue }
+
+func (n negativeLongValue) precedenceLevel() nodePrecedenceLevel { return unaryPrecedence }
+
 func marshalChildNode(thisNodePrecedence nodePrecedenceLevel, childAstNode ast.IsNode, buf *bytes.Buffer) {
 	childNode := astNodeToMarshalNode(childAstNode)
 	if thisNodePrecedence > childNode.precedenceLevel() {
@@ -155,6 +166,14 @@ func marshalChildNode(thisNodePrecedence nodePrecedenceLevel, childAstNode ast.I
 	} else {
 		childNode.marshalCedar(buf)
 	}
+}
+
+// marshalElementNode marshals an element of a set or record literal. Unary expressions and
+// negative literals are not parenthesised there, so that `[-1]` renders the same whether it
+// is a set value, a set of value nodes or a set of negated literals; lower-precedence
+// expressions keep their parentheses.
+func marshalElementNode(astNode ast.IsNode, buf *bytes.Buffer) {
+	marshalChildNode(unaryPrecedence, astNode, buf)
 }
 
 func (n NodeTypeNot) marshalCedar(buf *bytes.Buffer) {
@@ -256,7 +275,7 @@ func (n NodeTypeHasTag) marshalCedar(buf *bytes.Buffer) {
 func (n NodeTypeSet) marshalCedar(buf *bytes.Buffer) {
 	buf.WriteRune('[')
 	for i := range n.Elements {
-		marshalChildNode(n.precedenceLevel(), n.Elements[i], buf)
+		marshalElementNode(n.Elements[i], buf)
 		if i != len(n.Elements)-1 {
 			buf.WriteString(", ")
 		}
@@ -269,7 +288,7 @@ func (n NodeTypeRecord) marshalCedar(buf *bytes.Buffer) {
 	for i := range n.Elements {
 		buf.Write(n.Elements[i].Key.MarshalCedar())
 		buf.WriteString(":")
-		marshalChildNode(n.precedenceLevel(), n.NodeTypeRecord.Elements[i].Value, buf)
+		marshalElementNode(n.NodeTypeRecord.Elements[i].Value, buf)
 		if i != len(n.Elements)-1 {
 			buf.WriteString(", ")
 		}
@@ -434,6 +453,11 @@ func astNodeToMarshalNode(astNode ast.IsNode) IsNode {
 	case ast.NodeTypeGetTag:
 		return NodeTypeGetTag{v, accessPrecedenceNode{}}
 	case ast.NodeTypeExtensionCall:
+		if info, ok := extensions.ExtMap[v.Name]; ok && !info.IsMethod {
+			// `decimal("1.0")` is a primary in the grammar (ExtFun '(' ExprList ')'), like the
+			// extension values that MarshalCedar renders the same way
+			return extFunctionCall{NodeTypeExtensionCall{v, accessPrecedenceNode{}}}
+		}
 		return NodeTypeExtensionCall{v, accessPrecedenceNode{}}
 	case ast.NodeTypeContains:
 		return NodeTypeContains{v, accessPrecedenceNode{}}
@@ -444,6 +468,10 @@ func astNodeToMarshalNode(astNode ast.IsNode) IsNode {
 	case ast.NodeTypeIsEmpty:
 		return NodeTypeIsEmpty{v, accessPrecedenceNode{}}
 	case ast.NodeValue:
+		if l, ok := v.Value.(types.Long); ok && l < 0 {
+			// `-1` is the unary minus applied to a literal: `(-1).foo` needs its parentheses
+			return negativeLongValue{NodeValue{v, primaryPrecedenceNode{}}}
+		}
 		return NodeValue{v, primaryPrecedenceNode{}}
 	case ast.NodeTypeRecord:
 		return NodeTypeRecord{v, primaryPrecedenceNode{}}
